@@ -24,7 +24,7 @@ import (
 	"github.com/semihalev/sdns/internal/verifshim/vkit"
 )
 
-var vkQtypes = []uint16{dns.TypeA, dns.TypeNS, dns.TypeDS, dns.TypeCNAME, dns.TypeTXT}
+var vkQtypes = []uint16{dns.TypeA, dns.TypeNS, dns.TypeDS, dns.TypeCNAME, dns.TypeTXT, dns.TypeCAA}
 
 // ---------------------------------------------------------------- setup (one zone, one chain)
 
